@@ -386,6 +386,11 @@ func c14r3(rc *core.RC) {
 				case *ast.BinaryExpr:
 					if f := fieldNameOf(info, x.Y); (f == "MaxTypeAddr" || f == "BaseTypeAddr") && x.Op != token.SUB {
 						out = append(out, "cmp "+x.Op.String()+" "+f)
+					} else if f := fieldNameOf(info, x.X); f == "MaxTypeAddr" || f == "BaseTypeAddr" {
+						// the bound on the left: the same comparison read from the other side
+						if op, isCmp := map[token.Token]token.Token{token.LSS: token.GTR, token.GTR: token.LSS, token.LEQ: token.GEQ, token.GEQ: token.LEQ, token.EQL: token.EQL, token.NEQ: token.NEQ}[x.Op]; isCmp {
+							out = append(out, "cmp "+op.String()+" "+f)
+						}
 					}
 				}
 				return true
@@ -1518,5 +1523,55 @@ func c14r15(rc *core.RC) {
 	}
 	if n < 1 {
 		rc.Unknown("encoder/non-empty-interface-marks", token.NoPos, "no statement that sets NonEmptyInterfaceFlags found")
+	}
+}
+
+// ---- C14.R16 the table of programs per struct type holds whole programs ----
+
+// linkRecursiveCode takes the program of a recursive reference from compileContext.structTypeToCodes. What is stored
+// there is what every reference to the type runs: it has to be the program of the type by itself (braces, every
+// member, the end operation), which only (*StructCode).ToOpcode builds. The shape the same struct has as an embedded
+// member (ToAnonymousOpcode: no braces, hidden members removed) depends on the struct that embeds it. Obligation:
+// every store into structTypeToCodes is in (*StructCode).ToOpcode.
+func c14r16(rc *core.RC) {
+	p := rc.P
+	n := 0
+	for _, short := range append([]string{"encoder"}, core.VMPkgs...) {
+		for _, fd := range p.Funcs(short) {
+			if fd.Body == nil {
+				continue
+			}
+			info := p.Info(fd)
+			k := 0
+			ast.Inspect(fd.Body, func(m ast.Node) bool {
+				as, ok := m.(*ast.AssignStmt)
+				if !ok {
+					return true
+				}
+				for _, l := range as.Lhs {
+					ix, isIx := core.Unparen(l).(*ast.IndexExpr)
+					if !isIx {
+						continue
+					}
+					f := core.FieldOf(info, core.Unparen(ix.X))
+					if f == nil || f.Name() != "structTypeToCodes" {
+						continue
+					}
+					n++
+					k++
+					rc.Touch(p.FuncName(fd))
+					key := fmt.Sprintf("%s/store#%d into structTypeToCodes whole-program", p.FuncName(fd), k)
+					if p.FuncName(fd) == "encoder.(*StructCode).ToOpcode" {
+						rc.OK(key, as.Pos(), "the program stored for the type is the one ToOpcode builds for the struct by itself")
+					} else {
+						rc.Bad(key, as.Pos(), "%s stores a program into compileContext.structTypeToCodes: every recursive reference to the type is linked to what is stored there, and only (*StructCode).ToOpcode builds the program of the type by itself (the embedded form has no braces and lacks the members the embedding struct hides)", p.FuncName(fd))
+					}
+				}
+				return true
+			})
+		}
+	}
+	if n < 1 {
+		rc.Unknown("encoder/structTypeToCodes-stores", token.NoPos, "no store into compileContext.structTypeToCodes found")
 	}
 }
